@@ -71,7 +71,11 @@ Step(e) ==
                   ordered == \A a \in b.acs : HB(a, t, c)
               IN [clk |-> Tick(clk, t), rel |-> rel, mem |-> [mem EXCEPT ![e.id].live = FALSE], excl |-> excl,
                   V |-> (IF ~b.live THEN {<<"C05", "freed_once">>, <<"C03", "freed_once">>} ELSE {})
-                        \cup (IF b.live /\ ~ordered THEN {<<"C06", "no_race">>} ELSE {})]
+                        \* a deallocation that is not ordered after another thread's accesses: a data
+                        \* race (C06); an execution in which C11 lets that thread read released storage
+                        \* (C05, quantified over all outcomes the memory model allows); a release that
+                        \* is not "after the last handle is gone" in the happens-before sense (C03)
+                        \cup (IF b.live /\ ~ordered THEN {<<"C06", "no_race">>, <<"C05", "reads_original_weak">>, <<"C03", "release_after_use">>} ELSE {})]
     [] e.k = "bad_free" ->
          [clk |-> Tick(clk, t), rel |-> rel, mem |-> mem, excl |-> excl, V |-> {<<"C05", "freed_once">>, <<"C03", "freed_once">>}]
     [] e.k = "atomic" /\ e.op # "get_mut" ->
